@@ -82,7 +82,7 @@ def model_behaviours(run, rng):
 
 
 def systematic(run, rng):
-    base = [(n, st, None) for n, st in oc.base_paths() + oc.two_command_paths()] + oc.round_paths()
+    base = [(n, st, None) for n, st in oc.base_paths() + oc.two_command_paths()] + oc.round_paths() + oc.extra_paths()
     probe = [oc.scenario("base:" + n, st, {"kind": "base"}, log_reads=True, nodes_mut=mut) for n, st, mut in base]
     files = oc.record(run, probe, prefix="probe", procs=PROCS[run.tier])
     calls = {}
